@@ -408,3 +408,40 @@ def ebdt_row_accessors(ctx, repo):
 
 
 ALL.append(ebdt_row_accessors)
+
+
+# ---------------------------------------------------------------------------
+# ESC-order: the ampersand is escaped before anything that introduces one
+# ---------------------------------------------------------------------------
+def escape_order(ctx, repo):
+    ctx.rule("ESC-order", "in the XML writer's escaping helpers every replacement that introduces an entity (`... -> '&xxx;'`) is applied to text whose own ampersands were already escaped: escape() replaces '&' first, and escapeattr() replaces the quote on the result of escape(), never on its argument (otherwise the new '&' is escaped again and a quote comes back as the text `&quot;`)", floor=2)
+    from ..core import sym_return
+
+    m = repo.mod("misc/xmlWriter.py")
+    esc = m.func("escape")
+    # order of the chained replacements in escape(): substitute locals in assignment order by hand (escape is not
+    # straight-line: it ends with a warning branch), reading only the leading run of `data = data.replace(a, b)`
+    seq = []
+    for st in esc.node.body:
+        if isinstance(st, ast.Assign) and isinstance(st.value, ast.Call) and isinstance(st.value.func, ast.Attribute) and st.value.func.attr == "replace" and len(st.value.args) == 2 and all(isinstance(a, ast.Constant) for a in st.value.args):
+            seq.append((st.value.args[0].value, st.value.args[1].value))
+    intro = [i for i, (a, b) in enumerate(seq) if isinstance(b, str) and b.startswith("&")]
+    amp = [i for i, (a, b) in enumerate(seq) if a == "&"]
+    ok = bool(amp) and bool(intro) and amp[0] == min(intro)
+    ctx.ob("ESC-order", esc.where, f"escape(): replacements in order {[a for a, b in seq]}", ok, "" if ok else "'&' is not the first replacement: entities introduced earlier are escaped again")
+    ea = m.func("escapeattr")
+    r = sym_return(repo, ea, depth=0)
+    ok = False
+    detail = "escapeattr is not a straight-line function"
+    if r is not None:
+        reps = [c for c in ast.walk(r) if isinstance(c, ast.Call) and isinstance(c.func, ast.Attribute) and c.func.attr == "replace" and len(c.args) == 2 and isinstance(c.args[1], ast.Constant) and isinstance(c.args[1].value, str) and c.args[1].value.startswith("&")]
+        escs = [c for c in ast.walk(r) if isinstance(c, ast.Call) and isinstance(c.func, ast.Name) and c.func.id == "escape"]
+        inner_ok = all(any(e is x for x in ast.walk(c.func.value) for e in escs) for c in reps)  # receiver contains the escape() call
+        outer_ok = not any(isinstance(x, ast.Call) and x in reps for e in escs for a in e.args for x in ast.walk(a))
+        quote = any(isinstance(c.args[0], ast.Constant) and c.args[0].value == '"' for c in reps)
+        ok = bool(escs) and bool(reps) and inner_ok and outer_ok and quote
+        detail = f"summary {norm(r)[:90]}"
+    ctx.ob("ESC-order", ea.where, f"escapeattr(): the quote is replaced on the result of escape() ({detail})", ok, "" if ok else "the quote entity is introduced before escape() runs (or the quote is not replaced at all)")
+
+
+ALL.append(escape_order)
